@@ -165,19 +165,33 @@ def check_inf(case, ctx):
         ok = ctx.raises(Exception, persistent_entropy, arr, keep_inf=True)
         ctx.require(ok, "keep_inf_without_value_accepted", "keep_inf=True without val_inf returned a number")
         return
-    if mode in ("drop", "default"):
+    before = arr.copy()
+
+    def dropped(tag):
         normalize = case["normalize"] and len(finite_bars) >= 2
         kw = {"keep_inf": False} if mode == "drop" else {}
         e = float(ctx.call(persistent_entropy, arr, normalize=normalize, **kw)[0])
         ref = ref_entropy(finite_bars, normalize)
-        ctx.require(abs(e - ref) <= tol(len(full)), "inf_dropped", lambda: "%r vs entropy of finite bars %r" % (e, ref))
-    else:
-        v = case["val_inf"]
+        ctx.require(abs(e - ref) <= tol(len(full)), "inf_dropped", lambda: "%s: %r vs entropy of finite bars %r" % (tag, e, ref))
+
+    def replaced(tag, v):
         repl = [[b, (v if d == INF else d)] for b, d in full]
         normalize = case["normalize"] and len(repl) >= 2
         e = float(ctx.call(persistent_entropy, arr, keep_inf=True, val_inf=v, normalize=normalize)[0])
         ref = ref_entropy(repl, normalize)
-        ctx.require(abs(e - ref) <= tol(len(full)), "inf_replaced", lambda: "%r vs entropy with inf->%r: %r" % (e, v, ref))
+        ctx.require(abs(e - ref) <= tol(len(full)), "inf_replaced", lambda: "%s: %r vs entropy with inf->%r: %r" % (tag, e, v, ref))
+
+    # the same array is used for a sequence of requests: each must be answered "as requested"
+    v = case["val_inf"]
+    if mode in ("drop", "default"):
+        dropped("first call")
+        replaced("second call on the same array", v)
+        dropped("third call on the same array")
+    else:
+        replaced("first call", v)
+        dropped("second call on the same array")
+        replaced("third call on the same array", v + 1.0)
+    ctx.require(np.array_equal(arr, before), "input_modified", "the barcode array passed in was modified (infinite deaths overwritten)")
 
 
 # -- rejection ----------------------------------------------------------------------------
